@@ -24,15 +24,19 @@ L3 (real code only, against a dict-of-dicts "simple map" written in Python):
       snapshot, shared-equals-memory, concurrent unique-id / lost-value / read-your-writes, thread stress,
       and a `dis` check that no CALL / JUMP_BACKWARD lies between reading and writing the id counters.
 """
+import contextlib
 import copy
 import dis
+import io
 import itertools
 import json
+import math
 import multiprocessing as mp
 import os
 import sys
 import threading
 from concurrent.futures import ProcessPoolExecutor
+from fractions import Fraction
 
 from . import common
 from .common import rat
@@ -49,29 +53,101 @@ RET = {
     "load_jobs": "val", "load_job_status": "val",
 }
 RESERVED = ("job_id_counter", "data")
+JOB_ID_FIRST = {"store_job", "store_job_in", "store_job_out", "store_job_metadata", "store_job_status", "load_job", "load_job_status",
+                "job_status", "running_job_status", "job_status_set"}
 
 # --------------------------------------------------------------------------- value encoding
 
 
-def enc(v):
+# Keys and identifiers are Hashable, not only str.  On the wire a JSON string is a str key; any other key is an ordinary
+# wire value (`null`, `true`, `{"i":1}`, `{"f":"5/2"}`, `{"t":[{"i":0},{"s":"a"}]}`).  The model keeps string keys: a typed key
+# is RENDERED to a string by `Key.render` (Model/Storage.lean; injective up to Python's key equality 1 == 1.0 == True:
+# theorem C13_key_rendering_injective); `kenc` is the same rendering for the keys of the dicts the REAL storage returns.
+#   str s -> s  ("#s" + s if s starts with "#")     None -> "#N"     bool / int / finite float -> "#n<num>/<den>"
+#   tuple -> "#t" + for every item: "<length of its text>:" + its text
+# Two forms of a value: the INPUT form (`enc_in`: dict keys are wire keys; what calls carry and `dec` reads) and the
+# ANSWER form (`enc`: dict keys rendered; what answers are compared in, on both sides).
+
+
+def kenc(k):
+    """the model's text for a Python dict key / identifier"""
+    if isinstance(k, str):
+        return "#s" + k if k.startswith("#") else k
+    if k is None:
+        return "#N"
+    if isinstance(k, (bool, int)) or (isinstance(k, float) and math.isfinite(k)):
+        f = Fraction(k)
+        return f"#n{f.numerator}/{f.denominator}"
+    if isinstance(k, tuple):
+        parts = [kenc(x) for x in k]
+        return "#t" + "".join(f"{len(p)}:{p}" for p in parts)
+    return "#o<" + type(k).__name__ + ">"
+
+
+def dkey(k):
+    """wire key / identifier -> the Python object"""
+    return k if isinstance(k, str) else dec(k)
+
+
+def kwire(k):
+    """Python key -> wire key (input form)"""
+    return k if isinstance(k, str) else enc(k)
+
+
+def rk(k):
+    """wire key / identifier -> its rendering (what the simple map and the answers use)"""
+    if isinstance(k, str) and not k.startswith("#"):
+        return k
+    try:
+        return kenc(dkey(k))
+    except Exception:
+        return "#?" + json.dumps(k, sort_keys=True, default=str)
+
+
+def typed(k):
+    """a wire key / identifier that is not a str"""
+    return not isinstance(k, str)
+
+
+def _enc(v, key):
     if v is None or isinstance(v, bool):
         return v
     if isinstance(v, int):
         return {"i": v}
     if isinstance(v, float):
-        return {"f": rat(v)}
+        return {"f": rat(v)} if math.isfinite(v) else {"s": f"<float {v!r}>"}
     if isinstance(v, str):
         return {"s": v}
     if isinstance(v, list):
-        return {"l": [enc(x) for x in v]}
+        return {"l": [_enc(x, key) for x in v]}
     if isinstance(v, tuple):
-        return {"t": [enc(x) for x in v]}
+        return {"t": [_enc(x, key) for x in v]}
     if isinstance(v, dict):
-        return {"d": [[str(k), enc(x)] for k, x in v.items()]}
+        return {"d": [[key(k), _enc(x, key)] for k, x in v.items()]}
     k = getattr(v, "_verif_tok", None)
     if k is not None:
         return {"s": f"<opaque:{k}>"}      # what the Lean model sees for an arbitrary Python object
     return {"s": "<" + type(v).__name__ + ">"}
+
+
+def enc(v):
+    """answer form: dict keys rendered"""
+    return _enc(v, kenc)
+
+
+def enc_in(v):
+    """input form: dict keys as wire keys (what `dec` reads back)"""
+    return _enc(v, kwire)
+
+
+def rv(w):
+    """input form -> answer form of the value Python builds from it (two keys that are equal for a dict are one entry)"""
+    try:
+        return enc(dec(w))
+    except common.HarnessError:
+        raise
+    except Exception:
+        return w
 
 
 # arbitrary Python objects an in-process MemoryStorage legitimately holds (they deep-copy but do not pickle)
@@ -158,7 +234,7 @@ def dec(w):
     if tag == "t":
         return tuple(dec(y) for y in x)
     if tag == "d":
-        return {k: dec(y) for k, y in x}
+        return {dkey(k): dec(y) for k, y in x}
     if tag == "o":
         return make_opaque(x)
     raise common.HarnessError(f"bad wire value {w}")
@@ -194,36 +270,86 @@ def pyargs(c):
     if name in ("create_new_search", "load_all_search_ids"):
         return []
     if name == "load_jobs":
-        return [list(c[1])]
-    a, rest = [c[1]], c[2:]
+        return [[dkey(j) for j in c[1]]]
+    a, rest = [dkey(c[1])], c[2:]
     if name in PLAIN2 and rest:
-        a.append(rest[0])
+        a.append(dkey(rest[0]))
         rest = rest[1:]
     return a + [dec(x) for x in rest]
+
+
+def norm_call(c):
+    """a call as the simple map sees it: identifiers and keys rendered, values in answer form"""
+    name = c[0]
+    if name in ("create_new_search", "load_all_search_ids") or len(c) < 2:
+        return c
+    if name == "load_jobs":
+        return [name, [rk(j) for j in c[1]]] if isinstance(c[1], list) else c
+    if name in STATUS_VIEWS:
+        return [name, rk(c[1])] + ([rv(c[2])] + list(c[3:]) if name == "job_status_set" else list(c[2:]))
+    out, rest = [name, rk(c[1])], c[2:]
+    if name in PLAIN2 and rest:
+        out.append(rk(rest[0]))
+        rest = rest[1:]
+    return out + [rv(x) for x in rest]
+
+
+def typed_job_id(c):
+    """the call names a job by something that is not a str (`job_id.split` then raises AttributeError: nothing is looked up)"""
+    if c[0] == "load_jobs":
+        return isinstance(c[1], list) and any(typed(j) for j in c[1])
+    return c[0] in JOB_ID_FIRST and len(c) > 1 and typed(c[1])
 
 
 STATUS_VIEWS = {"job_status": "load_job_status", "running_job_status": "load_job_status", "job_status_set": "store_job_status"}
 RET_PSEUDO = {"job_status": "val", "running_job_status": "val", "job_status_set": "none"}
 
 
-def evaluator_view(st, c):
-    """the evaluator's way to the status: `Job.status` (getter / setter) and `RunningJob.status` on top of the storage"""
+def view_handle(c):
+    """name of the client handle an evaluator-level status access goes through (None: an object made for this one access)"""
+    n = 4 if c[0] == "job_status_set" else 3
+    return c[n - 1] if len(c) >= n else None
+
+
+def evaluator_view(st, c, views=None):
+    """the evaluator's way to the status: `Job.status` (getter / setter) and `RunningJob.status` on top of the storage.
+    `["job_status", jid, h]`, `["running_job_status", jid, h]`, `["job_status_set", jid, v, h]`: through the client handle
+    named `h` — ONE Job / RunningJob object per (class, job, name), kept in `views` for the whole history, as an evaluator keeps
+    the Job objects of the jobs it submitted; without `h` a new object is made for the access."""
     from deephyper.evaluator import Job, RunningJob
     from deephyper.evaluator._job import JobStatus
 
-    if c[0] == "job_status":
-        return Job(c[1], {}, None, st).status.value
-    if c[0] == "running_job_status":
-        return RunningJob(c[1], {}, st, None).status.value
-    job = Job(c[1], {}, None, st)
-    job.status = JobStatus(dec(c[2]))
-    return None
+    jid, h = dkey(c[1]), view_handle(c)
+    running = c[0] == "running_job_status"
+
+    def make():
+        return RunningJob(jid, {}, st, None) if running else Job(jid, {}, None, st)
+
+    if h is None or views is None:
+        obj = make()
+    else:
+        k = (running, rk(c[1]), h)
+        obj = views.get(k)
+        if obj is None:
+            obj = views[k] = make()
+    if c[0] == "job_status_set":
+        obj.status = JobStatus(dec(c[2]))
+        return None
+    return obj.status.value
 
 
 def to_storage_call(c):
     """the storage method call behind an evaluator-level status access"""
     if c[0] in STATUS_VIEWS:
-        return [STATUS_VIEWS[c[0]]] + list(c[1:])
+        return [STATUS_VIEWS[c[0]]] + list(c[1:3 if c[0] == "job_status_set" else 2])
+    return c
+
+
+def model_call(c):
+    """a call as the driver's `hist` request takes it: storage methods as they are; the evaluator-level status accesses without
+    the name of the handle (`viewStatus` / `setStatus` of the model do not depend on the handle)"""
+    if c[0] in STATUS_VIEWS:
+        return list(c[:3 if c[0] == "job_status_set" else 2])
     return c
 
 
@@ -255,11 +381,11 @@ def out_of(name, r):
     return {"k": "val", "v": enc(r)}
 
 
-def call_real2(st, c):
+def call_real2(st, c, views=None):
     """one method call on a real storage -> (OUT in wire form, the object the call returned)"""
     name = c[0]
     try:
-        r = evaluator_view(st, c) if name in STATUS_VIEWS else getattr(st, name)(*pyargs(c))
+        r = evaluator_view(st, c, views) if name in STATUS_VIEWS else getattr(st, name)(*pyargs(c))
     except Exception as e:   # every exception class is an answer (the model knows four; any other one is a difference)
         return {"k": "error", "v": type(e).__name__}, None
     return out_of(name, r), r
@@ -550,7 +676,7 @@ def sub_object(obj, path):
 def lower_store_loaded(c, obj):
     """-> (the storage call with the object's present value on the wire, positional Python arguments holding the object)"""
     _, _h, _path, method, target, key = c
-    w = enc(obj)
+    w = enc_in(obj)
     if method in ("store_job", "store_job_metadata", "store_search_value"):
         return [method, target, key, w], (target, key, obj)
     if method == "store_job_out":
@@ -568,6 +694,7 @@ class Runner:
         self.sm, self.snap = SimpleMap(label), Snap()
         self.calls, self.outs, self.eff, self.snap_bad = [], [], [], None
         self.handles, self.given = {}, set()
+        self.views = {}      # client handles (Job / RunningJob objects) that live as long as the history
 
     def _caller(self, c, idx):
         """-> (out, effective storage call or None)"""
@@ -604,7 +731,7 @@ class Runner:
         if name in CALLER:
             out, e = self._caller(c, idx)
         else:
-            out, obj = call_real2(self.st, c)
+            out, obj = call_real2(self.st, c, self.views)
             e = c
             if out["k"] != "error" and isinstance(obj, (dict, list)) and (name in HANDLE_DEEP or name in HANDLE_OUTER):
                 self.handles[idx] = obj
@@ -623,21 +750,26 @@ class Runner:
         return out
 
     def _judge(self, c, out):
-        sm = self.sm
-        if c[0] in ("job_status", "running_job_status"):
-            # the evaluator-level getter shows JobStatus(<stored status>) (ValueError if that is no JobStatus)
-            j = sm.jobs.get(c[1])
-            if j is None:
-                if out["k"] != "error":
-                    sm.flag("phantom", c[0], {"job": c[1], "got": out})
-            elif not (j["opaque"] or sm.searches[j["sid"]].get("opaque")):
-                want = expected_view_out(c, {"k": "val", "v": j["rec"].get("status")})
-                if cout(out) != cout(want):
-                    sm.flag("read-your-writes", c[0], {"job": c[1], "got": out, "want": want})
-        elif c[0] == "job_status_set":
-            sm.observe(to_storage_call(c), out)
-        else:
-            sm.observe(c, out)
+        judge_call(self.sm, c, out)
+
+
+def judge_call(sm, c, out):
+    """one call with the answer the real code gave, before the simple map (evaluator-level status accesses included)"""
+    c = norm_call(c)
+    if c[0] in ("job_status", "running_job_status"):
+        # the evaluator-level getter shows JobStatus(<stored status>) (ValueError if that is no JobStatus)
+        j = sm.jobs.get(c[1])
+        if j is None:
+            if out["k"] != "error":
+                sm.flag("phantom", c[0], {"job": c[1], "got": out})
+        elif not (j["opaque"] or sm.searches[j["sid"]].get("opaque")):
+            want = expected_view_out(c, {"k": "val", "v": j["rec"].get("status")})
+            if cout(out) != cout(want):
+                sm.flag("read-your-writes", c[0], {"job": c[1], "got": out, "want": want})
+    elif c[0] == "job_status_set":
+        sm.observe(to_storage_call(c), out)
+    else:
+        sm.observe(c, out)
 
 
 def run_history_eff(st, calls, label, judge=True):
@@ -821,6 +953,10 @@ def variant(label, calls):
 
 def judge_history(sink, calls, label, outs, bad, snap_bad, factory):
     for clause, method, detail in bad[:3]:
+        fp0 = f"C13|{clause}|{method}|{variant(label, calls)}"
+        if not has_caller(calls) and fp0 in sink.fails and sink.fails[fp0][3] >= 3:
+            sink.fail(fp0, f"{label}.{method}: {clause}", {"kind": "history", "storage": label, "calls": calls}, detail)   # shrunk thrice already
+            continue
         small = shrink_history(label, calls, clause, method, factory) if len(calls) <= 60 else calls
         sink.fail(f"C13|{clause}|{method}|{variant(label, small)}", f"{label}.{method}: {clause}", {"kind": "history", "storage": label, "calls": small}, detail)
     if snap_bad is not None:
@@ -845,6 +981,10 @@ def check_request(calls, outs):
             return None
         if c[0] in ("job_status", "running_job_status"):
             continue
+        if typed_job_id(c):
+            if o["k"] != "error":
+                return None   # judged by the simple map (phantom); the specification has no call for it
+            continue          # raised before anything was looked up: no storage operation took place
         cs.append(to_storage_call(c))
         os_.append(o)
     if not cs:
@@ -967,17 +1107,65 @@ def fan_worker(item):
 BAD_IDS = ["", "0", "0.", ".0", "0.0.0", "9.9", "x", "00.0", "0.00", "1.7", "7"]
 
 
-def gen_value(rng, depth=0):
+# keys of every type a dict accepts, next to the strings they print as (`str(1) == "1"`, `str(None) == "None"`, …): a storage that
+# keeps what it is given keeps them apart.  Within a family, entries that are EQUAL for a Python dict (1, 1.0, True) are one key.
+T01 = {"t": [{"i": 0}, {"i": 1}]}
+KEY_FAMILIES = [
+    [{"i": 1}, "1", True, {"f": "1/1"}, "1.0", "True"],
+    [{"i": 0}, "0", False, "False", "0.0", {"f": "0/1"}],
+    [None, "None", "", "none"],
+    [T01, "(0, 1)", {"t": [{"s": "a"}]}, "('a',)", "a", {"t": []}, "()"],
+    [{"f": "5/2"}, "2.5", {"i": 2}, "2", {"f": "-5/2"}, "-2.5"],
+    ["#N", None, "#n1/1", {"i": 1}, "#s", "#", "#s#"],
+    [{"t": [{"s": "1:a"}]}, {"t": [{"s": "1"}, {"s": "a"}]}, "1:a", {"t": [None, True]}, {"t": [{"s": "#N"}, {"i": 1}]}],
+]
+DICT_KEYS_TYPED = ["p", {"i": 1}, "1", None, "None", T01, "(0, 1)", {"f": "5/2"}, "2.5", "", "#N", False]   # no two equal for a dict
+TYPED_SIDS = [{"i": 0}, {"i": 1}, {"f": "0/1"}, None, True, {"t": [{"s": "0"}]}]
+TYPED_JIDS = [{"f": "0/1"}, {"f": rat(0.1)}, {"i": 0}, None, {"t": [{"s": "0"}, {"s": "0"}]}, {"t": [{"i": 0}, {"i": 0}]}]
+
+
+def twin(w, rng=None):
+    """a value that is EQUAL to `w` for Python (`True == 1 == 1.0`, containers of such) but is another value; None if there is none"""
+    if w is True or w is False:
+        return {"i": int(w)} if (rng is None or rng.random() < 0.6) else {"f": f"{int(w)}/1"}
+    if not isinstance(w, dict):
+        return None
+    (tag, x), = w.items()
+    if tag == "i":
+        if x in (0, 1) and (rng is None or rng.random() < 0.6):
+            return bool(x)
+        return {"f": f"{x}/1"}
+    if tag == "f":
+        num, den = x.split("/")
+        return {"i": int(num)} if den == "1" else None
+    if tag in ("l", "t"):
+        for n, y in enumerate(x):
+            t = twin(y, rng)
+            if t is not None:
+                return {tag: x[:n] + [t] + x[n + 1:]}
+        return None
+    if tag == "d":
+        for n, (k, y) in enumerate(x):
+            t = twin(y, rng)
+            if t is not None:
+                return {"d": x[:n] + [[k, t]] + x[n + 1:]}
+    return None
+
+
+def gen_value(rng, depth=0, tkeys=0.0):
     x = rng.random()
     if depth > 2 or x < 0.55:
         return rng.choice([{"i": rng.randint(-5, 50)}, {"f": rat(rng.choice([0.5, -1.25, 3.0, 1e-3, 2.5e8]))}, {"s": rng.choice(["", "a", "F", "0.0", "é"])},
                            None, True, False])
     if x < 0.7:
-        return {"l": [gen_value(rng, depth + 1) for _ in range(rng.randint(0, 3))]}
+        return {"l": [gen_value(rng, depth + 1, tkeys) for _ in range(rng.randint(0, 3))]}
     if x < 0.8:
-        return {"t": [gen_value(rng, depth + 1) for _ in range(rng.randint(0, 2))]}
-    ks = rng.sample(["p", "q", "r", "a", "metadata"], rng.randint(0, 3))
-    return {"d": [[k, gen_value(rng, depth + 1)] for k in ks]}
+        return {"t": [gen_value(rng, depth + 1, tkeys) for _ in range(rng.randint(0, 2))]}
+    if tkeys and rng.random() < tkeys:
+        ks = rng.sample(DICT_KEYS_TYPED, rng.randint(1, 4))
+    else:
+        ks = rng.sample(["p", "q", "r", "a", "metadata"], rng.randint(0, 3))
+    return {"d": [[k, gen_value(rng, depth + 1, tkeys)] for k in ks]}
 
 
 def gen_value_objects(rng, depth=0):
@@ -1024,10 +1212,15 @@ def gen_caller_action(rng, rn, jids, sids):
     return act, follow + again
 
 
-def gen_history(rng, n, malformed, valgen=None, alias=0.0):
+def gen_history(rng, n, malformed, valgen=None, alias=0.0, tkeys=0.0):
     """calls are generated against a running MemoryStorage so that most of them hit existing objects.
-    alias > 0: with that probability per step the caller edits / hands back an object an earlier load returned"""
-    valgen = valgen or gen_value
+    alias > 0: with that probability per step the caller edits / hands back an object an earlier load returned.
+    tkeys > 0: keys (of search values, metadata, job records, dicts inside values) of every hashable type next to the strings
+    they print as, now and then an identifier that is not a str; status accesses through named client handles"""
+    if valgen is None:
+        valgen = (lambda r, d=0: gen_value(r, d, tkeys)) if tkeys else gen_value
+    fam = rng.choice(KEY_FAMILIES) if tkeys and rng.random() < 0.85 else None
+    hnames = [None, "A", "B", "R"] if (tkeys or rng.random() < 0.5) else [None]
     rn = Runner(new_memory(), "generator", judge=False)
     calls, outs = rn.calls, rn.outs
     pending = []
@@ -1053,6 +1246,13 @@ def gen_history(rng, n, malformed, valgen=None, alias=0.0):
         sid = rng.choice(sids[:2] if rng.random() < 0.8 else sids) if sids else "0"
         jid = rng.choice(jids[-6:] if rng.random() < 0.7 else jids) if jids else "0.0"
         key = rng.choice(["a", "b"])
+        if fam is not None and rng.random() < 0.8:
+            key = rng.choice(fam)
+        if tkeys and rng.random() < 0.05:
+            if rng.random() < 0.5:
+                jid = rng.choice(TYPED_JIDS)
+            else:
+                sid = rng.choice(TYPED_SIDS)
         if malformed and rng.random() < 0.12:
             y = rng.random()
             if y < 0.4:
@@ -1067,7 +1267,7 @@ def gen_history(rng, n, malformed, valgen=None, alias=0.0):
             rn.do(["store_job", jid, "metadata", rng.choice([None, {"i": 3}, {"l": []}, {"s": "m"}, {"d": [["a", {"i": 1}]]}, {"d": []}])])
             kind = rng.choice(["smeta", "lmeta", "ljob", "smeta"])
         c = {
-            "cs": ["create_new_search"], "cj": ["create_new_job", sid], "sj": ["store_job", jid, key if malformed else "extra_" + key, v],
+            "cs": ["create_new_search"], "cj": ["create_new_job", sid], "sj": ["store_job", jid, key if (malformed or fam is not None) else "extra_" + key, v],
             "sin": ["store_job_in", jid, {"t": [valgen(rng, 1)]}, rng.choice([None, {"d": [["k", v]]}])],
             "sout": ["store_job_out", jid, v], "smeta": ["store_job_metadata", jid, key, v],
             "sstatus": ["store_job_status", jid, {"i": rng.randint(0, 4)}], "ssv": ["store_search_value", sid, key, v],
@@ -1078,10 +1278,18 @@ def gen_history(rng, n, malformed, valgen=None, alias=0.0):
             "lstatus": ["load_job_status", jid],
         }[kind]
         if c[0] == "load_job_status" and rng.random() < 0.5:
-            c = [rng.choice(["job_status", "running_job_status"]), c[1]]
+            h = rng.choice(hnames)
+            c = [rng.choice(["job_status", "running_job_status"]), c[1]] + ([h] if h else [])
         elif c[0] == "store_job_status" and rng.random() < 0.5:
-            c = ["job_status_set", c[1], c[2]]
+            h = rng.choice(hnames)
+            c = ["job_status_set", c[1], c[2]] + ([h] if h else [])
         rn.do(c)
+        if kind in ("sj", "sout", "sin", "smeta", "ssv", "sstatus") and rng.random() < 0.12:
+            # the same place stored again with a value that is equal for Python but another value (True over 1, 3.0 over 3, …)
+            vi = {"sj": 3, "sout": 2, "sin": 2, "smeta": 3, "ssv": 3, "sstatus": 2}[kind]
+            t = twin(c[vi], rng) if len(c) > vi else None
+            if t is not None and c[0] != "job_status_set":     # (the setter takes a JobStatus and stores its int value)
+                pending = [c[:vi] + [t] + c[vi + 1:], ["load_search_value", c[1], c[2]] if kind == "ssv" else ["load_job", c[1]]]
     return [list(c) for c in calls]
 
 
@@ -1098,10 +1306,12 @@ def long_worker(item):
         for t in range(count):
             malformed = rng.random() < 0.35
             n = rng.choice([5, 6, 7, 10, 20, 40, 80, 120, 200]) if maxlen >= 200 else rng.randint(5, maxlen)
-            calls = gen_history(rng, min(n, maxlen), malformed)
+            # (not in the malformed stream: a `metadata` entry replaced by a list accepts int-like keys as indices — not modelled)
+            tk = rng.choice([0.3, 0.6]) if (not malformed and rng.random() < 0.35) else 0.0
+            calls = gen_history(rng, min(n, maxlen), malformed, tkeys=tk)
             case = {"kind": "history", "calls": calls}
             sink.case(case, nontrivial=True)
-            sink.count("schedule:generated" + ("-malformed" if malformed else ""))
+            sink.count("schedule:generated" + ("-malformed" if malformed else "") + ("-typed-keys" if tk else ""))
             sink.count("len=" + ("5-7" if len(calls) <= 7 else "8-40" if len(calls) <= 40 else "41-200"))
             st = new_memory()
             outs, bad, snap_bad = run_history(st, calls, "MemoryStorage")
@@ -1124,7 +1334,7 @@ def long_worker(item):
                           {"kind": "history", "storage": "both", "calls": calls}, d)
             judge_history(sink, calls, "SharedMemoryStorage", souts, sbad, ssnap, factory)
             del sts
-            reqs.append({"op": "hist", "s": t, "calls": [to_storage_call(c) for c in calls]})
+            reqs.append({"op": "hist", "s": t, "calls": [model_call(c) for c in calls]})
             metas.append((calls, outs))
         with common.LeanDriver("C13") as drv:
             reps = drv.ask_all(reqs)
@@ -1137,7 +1347,6 @@ def long_worker(item):
                 if y["k"] == "oom":
                     sink.count("model:out-of-scope-call")
                     break  # the history overwrote a bookkeeping key: the model (and the property) stop here
-                y = expected_view_out(calls[i], y)
                 if cout(x) != cout(y):
                     sink.mismatch({"kind": "history", "calls": calls[: i + 1]}, {"call": i, "impl": cout(x), "model": cout(y)})
                     break
@@ -1174,7 +1383,7 @@ def object_histories(ck, drv):
         q = check_request(mcalls, outs)
         if q is not None:
             checks.append((q, case, "MemoryStorage", mcalls, bad))
-        reqs.append({"op": "hist", "s": 20_000 + t, "calls": [to_storage_call(c) for c in mcalls]})
+        reqs.append({"op": "hist", "s": 20_000 + t, "calls": [model_call(c) for c in mcalls]})
         metas.append((calls, outs))
     reps = drv.ask_all(reqs)
     creps = drv.ask_all([c[0] for c in checks])
@@ -1184,7 +1393,6 @@ def object_histories(ck, drv):
         for i, (x, y) in enumerate(zip(outs, rep["outs"])):
             if y["k"] == "oom":
                 break
-            y = expected_view_out(calls[i], y)
             if cout(x) != cout(y):
                 sink.mismatch({"kind": "history", "storage": "MemoryStorage", "calls": calls[: i + 1]}, {"call": i, "impl": cout(x), "model": cout(y)})
                 break
@@ -1283,6 +1491,45 @@ def canon_ids(w, ren):
     return w
 
 
+_IDENT_SEEN = []
+
+
+async def ident_run(job):
+    """the run-function of the identity scripts: keeps the parameters object it was handed (the script edits it later)"""
+    _IDENT_SEEN.append(job.parameters)
+    return 0.0
+
+
+class IdentEvaluator:
+    """a real serial evaluator on the script's storage and search: `submit(cfg)` submits the configuration, runs the job to
+    completion and returns the very object the run-function received as `RunningJob.parameters`"""
+
+    def __init__(self, st, sid):
+        self.st, self.sid, self.ev = st, sid, None
+
+    def submit(self, cfg):
+        from deephyper.evaluator import Evaluator
+
+        with contextlib.redirect_stdout(io.StringIO()):
+            if self.ev is None:
+                self.ev = Evaluator.create(ident_run, method="serial", method_kwargs={"storage": self.st, "search_id": self.sid})
+            del _IDENT_SEEN[:]
+            self.ev.submit([cfg])
+            try:
+                self.ev.gather("ALL")
+            except Exception:
+                pass   # `gather_other_jobs_done` reading the script's hand-made jobs; the submitted job itself has run by then
+        return _IDENT_SEEN[-1] if _IDENT_SEEN else None
+
+    def close(self):
+        if self.ev is not None:
+            try:
+                with contextlib.redirect_stdout(io.StringIO()):
+                    self.ev.close()
+            except Exception:
+                pass
+
+
 def run_identity_script(rng, nops):
     """generates a script against a running MemoryStorage -> (script for the model, real transcript, note)"""
     st = new_memory()
@@ -1313,13 +1560,29 @@ def run_identity_script(rng, nops):
         real.append({"k": "none"} if got == want else {"k": "val", "v": {"s": f"create_new_job returned {got!r}"}})
         jids.append(want)
 
+    iev = IdentEvaluator(st, sid)
+
+    def submit():
+        """a job created, submitted and run by a real evaluator; the caller of the script then holds the parameters object"""
+        want = f"{sid}.{len(jids)}"
+        w = {"d": [[k, gen_value(rng, 1)] for k in rng.sample(["x", "layers", "opt", "lr"], rng.randint(1, 3))]}
+        r = do(["submit", want, {"new": w}], lambda: iev.submit(dec(w)))
+        got = st.load_all_job_ids(sid)
+        if want not in got or len(got) != len(jids) + 1:
+            real[-1] = {"k": "val", "v": {"s": f"after submit the jobs are {got!r}"}}
+        jids.append(want)
+        if r is not None:
+            handles.append({"obj": r, "kind": "job", "given": False, "n": len(handles)})
+
     new_job()
     new_job()
     while len(script) < nops:
         x = rng.random()
         jid = rng.choice(jids) if rng.random() < 0.93 else f"{sid}.{len(jids) + 3}"
-        if x < 0.08:
+        if x < 0.05:
             new_job()
+        elif x < 0.12:
+            submit()
         elif x < 0.40:
             # a store: a freshly built object, or a part of a loaded copy (each loaded object handed back at most once)
             deep = [h for h in handles if h["kind"] != "live" and not h["given"]]
@@ -1389,6 +1652,7 @@ def run_identity_script(rng, nops):
                     do(["edit", ref, ["clear"]], lambda: obj.clear())
     do(["load_jobs", list(jids)], lambda: st.load_jobs(list(jids)))
     do(["load_all"], lambda: st.load_search(sid), rekey=lambda k: f"{sid}.{k}")
+    iev.close()
     return script, real
 
 
@@ -1397,6 +1661,7 @@ def exec_identity_script(script):
     st = new_memory()
     sid = st.create_new_search()
     ren, keep, real, handles = {}, [], [], []
+    iev = IdentEvaluator(st, sid)
 
     def resolve(ref):
         if "new" in ref:
@@ -1414,6 +1679,12 @@ def exec_identity_script(script):
             if name == "new_job":
                 got = st.create_new_job(sid)
                 r = None if got == op[1] else f"create_new_job returned {got!r}"
+            elif name == "submit":
+                before = st.load_all_job_ids(sid)
+                r, kind = iev.submit(resolve(op[2])), "job"
+                got = st.load_all_job_ids(sid)
+                if op[1] not in got or len(got) != len(before) + 1:
+                    r, kind = f"after submit the jobs are {got!r}", None
             elif name in ("store_job", "store_meta"):
                 obj = resolve(op[3])
                 if obj is _MISSING:
@@ -1451,6 +1722,7 @@ def exec_identity_script(script):
             handles.append((r, kind))
         real.append({"k": "none"} if r is None else
                     {"k": "val", "v": enc_ids(r, ren, keep, (lambda k: f"{sid}.{k}") if kind == "all" else None)})
+    iev.close()
     return real
 
 
@@ -1527,7 +1799,7 @@ def alias_worker(item):
                 q = check_request(secalls, seouts)
                 if q is not None:
                     checks.append((q, case, "SharedMemoryStorage", secalls, sbad))
-            reqs.append({"op": "hist", "s": 30_000 + t, "calls": [to_storage_call(c) for c in ecalls]})
+            reqs.append({"op": "hist", "s": 30_000 + t, "calls": [model_call(c) for c in ecalls]})
             metas.append((calls, ecalls, eouts, ks))
         with common.LeanDriver("C13") as drv:
             reps = drv.ask_all(reqs)
@@ -1539,9 +1811,142 @@ def alias_worker(item):
             for i, (x, y) in enumerate(zip(eouts, rep["outs"])):
                 if y["k"] == "oom":
                     break
-                y = expected_view_out(ecalls[i], y)
                 if cout(x) != cout(y):
                     sink.mismatch({"kind": "history", "storage": "MemoryStorage", "calls": calls[: ks[i] + 1]}, {"call": ks[i], "impl": cout(x), "model": cout(y)})
+                    break
+    finally:
+        factory.close()
+    return sink
+
+
+# --------------------------------------------------------------------------- keys of every type; several client handles per job
+
+KEY_PREAMBLE = [["create_new_search"], ["create_new_search"], ["create_new_job", "0"], ["create_new_job", "0"], ["create_new_job", "1"]]
+LOOKALIKES = [({"i": 1}, "1"), (True, "True"), (None, "None"), (T01, "(0, 1)"), ({"f": "5/2"}, "2.5"), ({"i": 0}, "0"), ({"f": "1/1"}, "1.0"),
+              (False, "False"), ("", None), ({"t": []}, "()"), ("#N", None), ("#n1/1", {"i": 1}), ({"t": [{"s": "a"}]}, "a"), ({"t": [{"s": "a"}]}, "('a',)"),
+              ({"t": [{"s": "1:a"}]}, {"t": [{"s": "1"}, {"s": "a"}]}), ({"i": 1}, {"t": [{"i": 1}]}), ({"f": "-5/2"}, "-2.5"), ("#s#", "#"),
+              ({"i": 10}, "10"), ({"f": rat(0.1)}, "0.1")]
+EQUAL_VALUES = [({"i": 1}, True), ({"i": 0}, False), ({"i": 1}, {"f": "1/1"}), ({"i": 0}, {"f": "0/1"}), (True, {"f": "1/1"}), ({"i": 3}, {"f": "3/1"}),
+                ({"t": [{"i": 1}, {"i": 0}]}, {"t": [True, False]}), ({"d": [["a", {"i": 1}]]}, {"d": [["a", True]]}), ({"l": [{"i": 3}, {"s": "x"}]}, {"l": [{"f": "3/1"}, {"s": "x"}]}),
+                ({"d": [[{"i": 1}, {"s": "v"}]]}, {"d": [[True, {"s": "v"}]]})]
+KEY_READS = [["load_job", "0.0"], ["load_job", "0.1"], ["load_search", "0"], ["load_jobs", ["0.0", "0.1", "1.0"]], ["load_search", "1"]]
+
+
+def typed_key_systematic():
+    """every keyed store method x every pair (a key, a key of another type that prints alike) x both orders: each key is
+    stored, read back, absent before it was stored, untouched by the store to its look-alike, absent in the neighbours; the same
+    pair as keys of one stored dict; identifiers that are not str where a search / job identifier is expected"""
+    P = KEY_PREAMBLE
+    for k1, k2 in LOOKALIKES:
+        for a, b in ((k1, k2), (k2, k1)):
+            va, vb = {"s": "first"}, {"l": [{"i": 2}]}
+            yield P + [["store_search_value", "0", a, va], ["load_search_value", "0", a], ["load_search_value", "0", b], ["load_search_value", "1", a],
+                       ["store_search_value", "0", b, vb], ["load_search_value", "0", a], ["load_search_value", "0", b], ["load_search_value", "1", b],
+                       ["store_search_value", "0", a, {"i": 3}], ["load_search_value", "0", b], ["load_search_value", "0", a]]
+            yield P + [["store_job_metadata", "0.0", a, va], ["load_metadata_from_all_jobs", "0", a], ["load_metadata_from_all_jobs", "0", b], ["load_job", "0.0"],
+                       ["store_job_metadata", "0.0", b, vb], ["store_job_metadata", "0.1", b, {"i": 4}], ["load_metadata_from_all_jobs", "0", a],
+                       ["load_metadata_from_all_jobs", "0", b], ["load_metadata_from_all_jobs", "1", a]] + KEY_READS
+            yield P + [["store_job", "0.0", a, va], ["load_job", "0.0"], ["store_job", "0.0", b, vb], ["store_job", "1.0", b, {"i": 5}]] + KEY_READS
+            d = {"d": [[a, va], [b, vb], ["z", {"d": [[b, {"i": 1}], [a, None]]}]]}
+            yield P + [["store_job_out", "0.0", d], ["store_job_in", "0.1", {"t": [d]}, {"d": [[b, {"i": 1}]]}], ["store_search_value", "1", "v", d],
+                       ["load_search_value", "1", "v"], ["load_out_from_all_jobs", "0"]] + KEY_READS
+    # values of different types that are equal for Python, stored one over the other (both orders), through every store method
+    for a0, b0 in EQUAL_VALUES:
+        for a, b in ((a0, b0), (b0, a0)):
+            reads = [["load_job", "0.0"], ["load_out_from_all_jobs", "0"], ["load_metadata_from_all_jobs", "0", "a"], ["load_search_value", "0", "a"]]
+            yield P + [["store_job_out", "0.0", a], ["store_job", "0.0", "extra", a], ["store_job_in", "0.0", {"t": [a]}, {"d": [["k", a]]}], ["store_job_metadata", "0.0", "a", a],
+                       ["store_search_value", "0", "a", a]] + reads + [
+                       ["store_job_out", "0.0", b], ["store_job", "0.0", "extra", b], ["store_job_in", "0.0", {"t": [b]}, {"d": [["k", b]]}], ["store_job_metadata", "0.0", "a", b],
+                       ["store_search_value", "0", "a", b]] + reads + KEY_READS
+    for a, b in (({"i": 1}, True), (True, {"i": 1}), ({"i": 0}, False), (False, {"i": 0}), ({"i": 2}, {"f": "2/1"}), ({"f": "4/1"}, {"i": 4}), (False, {"f": "0/1"})):
+        sreads = [["load_job_status", "0.0"], ["job_status", "0.0", "A"], ["running_job_status", "0.0"], ["load_job", "0.0"]]
+        yield P + [["store_job_status", "0.0", a]] + sreads + [["store_job_status", "0.0", b]] + sreads + [["store_job", "0.1", "status", b], ["load_job", "0.1"]] + KEY_READS
+    fill = [["store_job_out", "0.0", {"i": 1}], ["store_job_metadata", "0.0", "a", {"i": 2}], ["store_search_value", "0", "a", {"i": 3}], ["store_job_status", "0.1", {"i": 1}]]
+    for t in TYPED_SIDS:
+        yield P + fill + [["create_new_job", t], ["load_search", t], ["load_all_job_ids", t], ["store_search_value", t, "a", {"i": 9}], ["load_search_value", t, "a"],
+                          ["load_metadata_from_all_jobs", t, "a"], ["load_out_from_all_jobs", t], ["load_all_search_ids"], ["load_all_job_ids", "0"],
+                          ["load_search_value", "0", "a"], ["create_new_job", "0"]] + KEY_READS
+    for t in TYPED_JIDS:
+        yield P + fill + [["load_job", t], ["store_job_out", t, {"i": 9}], ["store_job_metadata", t, "a", {"i": 9}], ["store_job", t, "a", {"i": 9}],
+                          ["store_job_in", t, {"t": []}, None], ["store_job_status", t, {"i": 2}], ["load_job_status", t], ["job_status", t],
+                          ["running_job_status", t, "A"], ["job_status_set", t, {"i": 2}], ["load_jobs", [t]], ["load_jobs", ["0.0", t]], ["load_jobs", [t, "0.0"]],
+                          ["load_jobs", ["0.7", t]]] + KEY_READS
+
+
+STATUS_WRITERS = [lambda j, v: ["job_status_set", j, v, "A"], lambda j, v: ["job_status_set", j, v, "B"], lambda j, v: ["store_job_status", j, v],
+                  lambda j, v: ["store_job", j, "status", v], lambda j, v: ["job_status_set", j, v]]
+STATUS_READS = [["job_status", "0.0", "A"], ["job_status", "0.0", "B"], ["running_job_status", "0.0", "R"], ["job_status", "0.0"], ["running_job_status", "0.0"],
+                ["load_job_status", "0.0"], ["load_job", "0.0"], ["job_status", "0.1", "A"], ["load_job_status", "0.1"]]
+
+
+def status_handles_systematic():
+    """several client handles on ONE job (two Job objects `A`, `B`, a RunningJob `R`, objects made per access, the storage
+    methods): a status stored through any of them is what every one of them reads.  Every pair of writers x every pair of
+    statuses (so also DONE / CANCELLED followed by READY / RUNNING), all readers after each write, then the first writer again"""
+    P = KEY_PREAMBLE
+    for w1, w2 in itertools.product(range(len(STATUS_WRITERS)), repeat=2):
+        for s1, s2 in itertools.product(range(5), repeat=2):
+            s3 = (s1 + 2 * s2 + 1) % 5
+            yield (P + STATUS_READS[:3] + [STATUS_WRITERS[w1]("0.0", {"i": s1})] + STATUS_READS + [STATUS_WRITERS[w2]("0.0", {"i": s2})] + STATUS_READS
+                   + [STATUS_WRITERS[w1]("0.0", {"i": s3}), STATUS_WRITERS[w2]("0.1", {"i": s1})] + STATUS_READS)
+
+
+def batch_worker(item):
+    """histories of one family on MemoryStorage, SharedMemoryStorage (every `shared_mod`-th), the model and the verified checker"""
+    seed, family, part, nparts, ngen, shared_mod = item
+    import random
+
+    common.use_repo_sources()
+    rng = random.Random(seed)
+    sink = Sink()
+    factory = SharedFactory()
+    reqs, metas, checks = [], [], []
+    try:
+        gen = {"typed-keys": typed_key_systematic, "status-handles": status_handles_systematic}[family]
+        hists = [("systematic", [list(c) for c in h]) for n, h in enumerate(gen()) if n % nparts == part]
+        for t in range(ngen):
+            hists.append(("generated", gen_history(rng, rng.choice([8, 12, 20, 40, 80]), False, tkeys=rng.choice([0.3, 0.6]))))
+        for t, (how, calls) in enumerate(hists):
+            case = {"kind": "history", "calls": calls}
+            sink.case(case, nontrivial=True)
+            sink.count(f"schedule:{family}/{how}")
+            outs, bad, snap_bad, eff = run_history_eff(new_memory(), calls, "MemoryStorage")
+            for c, o in zip(calls, outs):
+                sink.count("op:" + c[0])
+                sink.count("out:" + (o["v"] if o["k"] == "error" else o["k"]))
+                if c[0] in STATUS_VIEWS and view_handle(c):
+                    sink.count("status-through-kept-handle:" + c[0])
+                for k in ([c[1]] if len(c) > 1 and not isinstance(c[1], list) else []) + ([c[2]] if c[0] in PLAIN2 and len(c) > 2 else []):
+                    if typed(k):
+                        sink.count("typed-key:" + ("id:" if k is c[1] else "key:") + type(dkey(k)).__name__)
+            judge_history(sink, calls, "MemoryStorage", outs, bad, snap_bad, factory)
+            q = check_request(calls, outs)
+            if q is not None:
+                checks.append((q, case, "MemoryStorage", calls, bad))
+            if t % shared_mod == 0:
+                souts, sbad, ssnap, seff = run_history_eff(factory.new(), calls, "SharedMemoryStorage")
+                sink.count("shared-histories")
+                d = compare_outs(sink, case, "memory", outs, "shared", souts)
+                if d is not None:
+                    sink.fail(f"C13|shared-equals-memory|{calls[d['call']][0]}|SharedMemoryStorage", "SharedMemoryStorage answers differently from MemoryStorage",
+                              {"kind": "history", "storage": "both", "calls": calls}, d)
+                judge_history(sink, calls, "SharedMemoryStorage", souts, sbad, ssnap, factory)
+                q = check_request(calls, souts)
+                if q is not None:
+                    checks.append((q, case, "SharedMemoryStorage", calls, sbad))
+            reqs.append({"op": "hist", "s": 40_000 + t, "calls": [model_call(c) for c in calls]})
+            metas.append((calls, outs))
+        with common.LeanDriver("C13") as drv:
+            reps = drv.ask_all(reqs)
+            creps = drv.ask_all([c[0] for c in checks])
+        for (_, case, label, calls, bad), rep in zip(checks, creps):
+            cross_check(sink, case, label, calls, bad, rep)
+        for (calls, outs), rep in zip(metas, reps):
+            for i, (x, y) in enumerate(zip(outs, rep["outs"])):
+                if y["k"] == "oom":
+                    break
+                if cout(x) != cout(y):
+                    sink.mismatch({"kind": "history", "calls": calls[: i + 1]}, {"call": i, "impl": cout(x), "model": cout(y)})
                     break
     finally:
         factory.close()
@@ -2191,6 +2596,29 @@ def store_side_observation(ck):
         seen["live-search-value-stored-as-metadata"] = st.load_search_value(s, "a") == {"p": 1, "kk": 1}
     except Exception as e:
         seen["raised:" + type(e).__name__] = True
+    # (4) the same one level up: an object the USER handed to the library and kept — the list a run-function returned as its
+    # objective, edited after the job was gathered.  `_on_done` stores `job.objective` by reference.  Not judged either.
+    try:
+        from deephyper.evaluator import Evaluator, HPOJob
+
+        kept = []
+
+        async def run(job):
+            kept.append([1.0, 2.0])
+            return {"objective": kept[-1]}
+
+        with contextlib.redirect_stdout(io.StringIO()):
+            s2 = st.create_new_search()
+            ev = Evaluator.create(run, method="serial", method_kwargs={"storage": st, "search_id": s2})
+            ev._job_class = HPOJob
+            ev.submit([{"x": 1}])
+            ev.gather("ALL")
+            kept[-1].append(3.0)
+            jid = st.load_all_job_ids(s2)[-1]
+            seen["run-function-edits-returned-object"] = st.load_job(jid)["out"] == [1.0, 2.0, 3.0]
+            ev.close()
+    except Exception as e:
+        seen["evaluator-raised:" + type(e).__name__] = True
     for k, v in seen.items():
         ck.count(f"observation:store-side-reference:{k}:" + ("shared" if v else "not-shared"))
 
@@ -2307,6 +2735,520 @@ def atomicity_window():
     return rep
 
 
+# --------------------------------------------------------------------------- (g) the storage's own clients: real Evaluators
+#
+# The histories above are issued by the harness.  In the library the storage's clients are the Evaluator (store_job_in at
+# submission, statuses, outputs and metadata at completion), the Job objects it keeps and the RunningJob handed to the
+# run-function.  Here jobs are created and run through REAL evaluators (serial and thread backends, Job and HPOJob formats,
+# one or two evaluators attached to one search) on a storage wrapped in a `Recorder`: every storage call the clients make is
+# logged with the VALUE of each argument at the time of the call and with the answer.  The log IS a history of storage
+# operations with values as arguments, and is judged like any other one: by the simple map, by the verified checker and
+# against the model.  What the USER of the library does in between is no storage operation: the run-function edits the
+# parameters it was given (`job["x"] = …`, `update`, `del`, nested edits, `clear` — RunningJob is a MutableMapping over ITS
+# copy of the configuration), the caller edits / reuses the dicts it passed to `submit`.  Every load — by the clients, and
+# by the harness between the steps and at the end — must return the last value STORED; the same user-level scenario must
+# leave the same inputs / outputs / statuses on SharedMemoryStorage and on MemoryStorage.  The user keeps to what is his:
+# objects the run-function RETURNED (handed to the library) and the Job objects `gather` returns are not edited.
+
+EV_MODES = ["none", "setitem", "update", "del", "nested", "clear", "pop", "setdefault"]
+EV_OUTS = ["scalar", "tuple", "dict", "wrapped"]
+
+
+def _ev_body(job):
+    """what the run-function does: reads its parameters, looks at its own status, computes its result, then (as run-functions
+    that derive or normalise hyperparameters do) edits the parameters it was given, in place"""
+    p = job.parameters
+    mode, x, out = p.get("mode"), p.get("x", 0), p.get("out", "scalar")
+    _ = job.status
+    if out == "tuple":
+        res = (float(x), 1.0)
+    elif out == "dict":
+        res = {"objective": float(x), "metadata": {"m": [x, {"k": x}], "note": str(mode)}}
+    elif out == "wrapped":
+        res = {"output": float(x), "metadata": {"w": x}}
+    else:
+        res = float(x)
+    if mode == "setitem":
+        job["x"] = [x, "edited"]
+        job["derived"] = {"from": x}
+    elif mode == "update":
+        p.update({"lr": 0.5, "x": None})
+    elif mode == "del":
+        for k in [k for k in p if k not in ("mode", "out")][:1]:
+            del job[k]
+    elif mode == "nested":
+        for v in list(p.values()):
+            if isinstance(v, list):
+                v.append("edited")
+            elif isinstance(v, dict):
+                v["edited"] = True
+                for w in v.values():
+                    if isinstance(w, list):
+                        w.append("edited")
+    elif mode == "clear":
+        p.clear()
+    elif mode == "pop":
+        p.pop("x", None)
+    elif mode == "setdefault":
+        p.setdefault("layers", []).append(x)
+    return res
+
+
+async def ev_run_async(job):
+    return _ev_body(job)
+
+
+def ev_run_sync(job):
+    return _ev_body(job)
+
+
+class Recorder:
+    """a storage client that passes every call on to the real storage UNCHANGED (the very objects it was given) and logs the
+    call — identifiers / keys / the value of every argument at that moment — with the answer.  One call at a time."""
+
+    def __init__(self, inner):
+        self.inner, self.log, self.lock, self.connected = inner, [], threading.RLock(), False
+
+    def _do(self, name, wire, *args):
+        with self.lock:
+            try:
+                r = getattr(self.inner, name)(*args)
+            except Exception as e:
+                self.log.append(([name] + wire, {"k": "error", "v": type(e).__name__}))
+                raise
+            self.log.append(([name] + wire, out_of(name, r)))
+            return r
+
+    def is_connected(self):
+        return self.connected
+
+    def connect(self):
+        self.connected = True
+        return self
+
+    def _connect(self):
+        pass
+
+    def create_new_search(self):
+        return self._do("create_new_search", [])
+
+    def create_new_job(self, search_id):
+        return self._do("create_new_job", [kwire(search_id)], search_id)
+
+    def store_search_value(self, search_id, key, value):
+        return self._do("store_search_value", [kwire(search_id), kwire(key), enc_in(value)], search_id, key, value)
+
+    def load_search_value(self, search_id, key):
+        return self._do("load_search_value", [kwire(search_id), kwire(key)], search_id, key)
+
+    def store_job(self, job_id, key, value):
+        return self._do("store_job", [kwire(job_id), kwire(key), enc_in(value)], job_id, key, value)
+
+    def store_job_in(self, job_id, args=None, kwargs=None):
+        return self._do("store_job_in", [kwire(job_id), enc_in(args), enc_in(kwargs)], job_id, args, kwargs)
+
+    def store_job_out(self, job_id, value):
+        return self._do("store_job_out", [kwire(job_id), enc_in(value)], job_id, value)
+
+    def store_job_metadata(self, job_id, key, value):
+        return self._do("store_job_metadata", [kwire(job_id), kwire(key), enc_in(value)], job_id, key, value)
+
+    def load_all_search_ids(self):
+        return self._do("load_all_search_ids", [])
+
+    def load_all_job_ids(self, search_id):
+        return self._do("load_all_job_ids", [kwire(search_id)], search_id)
+
+    def load_search(self, search_id):
+        return self._do("load_search", [kwire(search_id)], search_id)
+
+    def load_job(self, job_id):
+        return self._do("load_job", [kwire(job_id)], job_id)
+
+    def load_metadata_from_all_jobs(self, search_id, key):
+        return self._do("load_metadata_from_all_jobs", [kwire(search_id), kwire(key)], search_id, key)
+
+    def load_out_from_all_jobs(self, search_id):
+        return self._do("load_out_from_all_jobs", [kwire(search_id)], search_id)
+
+    def load_jobs(self, job_ids):
+        return self._do("load_jobs", [[kwire(j) for j in job_ids]], job_ids)
+
+    def store_job_status(self, job_id, job_status):
+        return self._do("store_job_status", [kwire(job_id), enc_in(job_status)], job_id, job_status)
+
+    def load_job_status(self, job_id):
+        return self._do("load_job_status", [kwire(job_id)], job_id)
+
+
+def gen_ev_config(rng, n):
+    cfg = [["x", {"i": n}], ["mode", {"s": rng.choice(EV_MODES)}], ["out", {"s": rng.choice(EV_OUTS)}]]
+    if rng.random() < 0.6:
+        cfg.append(["layers", {"l": [{"i": rng.randint(1, 9)} for _ in range(rng.randint(0, 3))]}])
+    if rng.random() < 0.5:
+        cfg.append(["opt", {"d": [["name", {"s": "sgd"}], ["steps", {"l": [{"i": 1}]}]]}])
+    if rng.random() < 0.2:
+        cfg.append(["f", {"f": rat(rng.choice([0.5, 1e-3]))}])
+    rng.shuffle(cfg)
+    return {"d": cfg}
+
+
+def gen_ev_scenario(rng, nsteps):
+    """a user-level scenario: one or two evaluators on one search; submits, gathers, the caller reusing the dicts it passed,
+    statuses stored / read through the storage methods, through the Job objects the evaluators keep and through new handles"""
+    nev = rng.choice([1, 1, 2])
+    hpo = rng.random() < 0.75       # one job format per search (several evaluators on one search use the same)
+    evs = [{"method": rng.choice(["serial", "thread"]), "hpo": hpo, "workers": rng.choice([1, 2, 3])} for _ in range(nev)]
+    steps, n, pending, done = [], 0, [0] * nev, 0
+    while len(steps) < nsteps:
+        e = rng.randrange(nev)
+        x = rng.random()
+        if x < 0.35 or n == 0:
+            k = rng.randint(1, 3)
+            steps.append(["submit", e, [gen_ev_config(rng, n + i) for i in range(k)]])
+            n += k
+            pending[e] += k
+        elif x < 0.60 and pending[e]:
+            steps.append(["gather", e, rng.choice(["ALL", "ALL", "BATCH"])])
+            done += pending[e]
+            pending[e] = 0
+        elif x < 0.70:
+            steps.append(["reuse", rng.randrange(n), rng.choice([0, 2, 3])])
+        elif x < 0.80:
+            steps.append(["call", [rng.choice(["load_job", "load_job", "load_job_status", "job_status", "running_job_status"]), f"0.{rng.randrange(n)}"]])
+        elif x < 0.85:
+            steps.append(["call", rng.choice([["load_search", "0"], ["load_jobs", [f"0.{rng.randrange(n)}" for _ in range(2)]], ["load_out_from_all_jobs", "0"],
+                                              ["load_metadata_from_all_jobs", "0", "note"], ["load_all_job_ids", "0"]])])
+        elif x < 0.92 and done:
+            # the status of a finished job goes back (a job re-queued by hand), through the storage or through a Job object
+            j = f"0.{rng.randrange(n)}"
+            v = {"i": rng.randint(0, 4)}
+            steps.append(["call", rng.choice([["store_job_status", j, v], ["job_status_set", j, v], ["job_status_set", j, v, "A"], ["store_job", j, "status", v]])])
+        else:
+            steps.append(["kept_job_status", e, rng.randrange(max(n, 1))])
+    for e in range(nev):
+        if pending[e]:
+            steps.append(["gather", e, "ALL"])
+    for e in range(nev):
+        steps.append(["kept_job_status", e, rng.randrange(n)])
+    return {"kind": "evaluator", "evaluators": evs, "steps": steps}
+
+
+def run_ev_scenario(scn, label, factory):
+    """-> (log of the storage calls with their answers [+ evaluator-level status reads], snapshot verdict, final digest)"""
+    from deephyper.evaluator import Evaluator, HPOJob
+
+    inner = new_memory() if label == "MemoryStorage" else factory.new()
+    rec = Recorder(inner)
+    sid = rec.create_new_search()
+    evs, passed, views, snap = [], [], {}, Snap(limit=8)
+    sink_out = io.StringIO()
+    snap_bad = None
+    rec.raised = []      # user-level steps that raised (none does on a correct tree; the storage call behind it is in the log)
+    try:
+        with contextlib.redirect_stdout(sink_out):
+            for e in scn["evaluators"]:
+                fn = ev_run_async if e["method"] == "serial" else ev_run_sync
+                ev = Evaluator.create(fn, method=e["method"], method_kwargs={"storage": rec, "search_id": sid, "num_workers": e.get("workers", 1)})
+                if e.get("hpo"):
+                    ev._job_class = HPOJob
+                evs.append(ev)
+            for n, step in enumerate(scn["steps"]):
+                kind = step[0]
+                try:
+                    _ev_step(scn, step, n, rec, evs, passed, views, snap)
+                except common.HarnessError:
+                    raise
+                except Exception as ex:
+                    rec.raised.append({"step": n, "what": step[:2], "raised": type(ex).__name__, "text": str(ex)[:200]})
+                if snap_bad is None and snap.kept:
+                    snap_bad = snap.check(len(rec.log))
+            for ev in evs:
+                try:
+                    if ev._tasks_running:
+                        ev.gather("ALL")
+                except Exception as ex:
+                    rec.raised.append({"step": "final gather", "raised": type(ex).__name__, "text": str(ex)[:200]})
+            jids = call_real2(rec, ["load_all_job_ids", sid])[1] or []
+            for j in jids:
+                call_real2(rec, ["load_job", j])
+                call_real2(rec, ["load_job_status", j])
+            for c in (["load_search", sid], ["load_jobs", list(jids)], ["load_out_from_all_jobs", sid]):
+                call_real2(rec, c)
+            final = call_real(inner, ["load_search", sid])
+    finally:
+        with contextlib.redirect_stdout(sink_out):
+            for ev in evs:
+                try:
+                    ev.close()
+                    if hasattr(ev, "executor"):
+                        ev.executor.shutdown(wait=True)
+                except Exception:
+                    pass
+    if snap_bad is None and snap.kept:
+        snap_bad = snap.check(len(rec.log))
+    return rec.log, snap_bad, ev_digest(final), rec.raised
+
+
+def _ev_step(scn, step, n, rec, evs, passed, views, snap):
+    """one user-level step of a scenario"""
+    kind = step[0]
+    if kind == "submit":
+        cfgs = [dec(w) for w in step[2]]
+        passed.extend(cfgs)
+        evs[step[1] % len(evs)].submit(cfgs)
+    elif kind == "gather":
+        ev = evs[step[1] % len(evs)]
+        if ev._tasks_running:
+            # a batch only on the serial backend (nothing runs between the steps there); on the thread backend the
+            # jobs left over would finish at times of their own and the end state would depend on the machine
+            if step[2] == "BATCH" and scn["evaluators"][step[1] % len(evs)]["method"] == "serial":
+                ev.gather("BATCH", size=1)
+            else:
+                ev.gather("ALL")
+    elif kind == "reuse":
+        if passed:
+            caller_edit(passed[step[1] % len(passed)], step[2], True, 700 + n)   # the caller's own dict, after submit
+    elif kind == "call":
+        c = step[1]
+        k0 = len(rec.log)
+        out, obj = call_real2(rec, c, views)
+        if c[0] in STATUS_VIEWS:
+            rec.log.append((c, out))          # what the evaluator-level access showed (its storage call is logged before it)
+        elif out["k"] != "error" and c[0] in HANDLE_DEEP and isinstance(obj, dict):
+            snap.keep(c, obj, k0)
+    elif kind == "kept_job_status":
+        ev = evs[step[1] % len(evs)]
+        # (in the order of the job identifiers: `jobs_done` is in the order asyncio's set of finished tasks was walked)
+        jobs = {id(j): j for j in list(ev.jobs_done) + list(ev.jobs)}.values()
+        jobs = sorted(jobs, key=lambda j: [int(p) if p.isdigit() else -1 for p in str(j.id).split(".")])
+        if jobs:
+            job = jobs[step[2] % len(jobs)]
+            try:
+                out = {"k": "val", "v": enc(job.status.value)}
+            except Exception as ex:
+                out = {"k": "error", "v": type(ex).__name__}
+            rec.log.append((["job_status", job.id, f"kept-by-evaluator-{step[1] % len(evs)}"], out))
+
+
+def ev_digest(final):
+    """what must not depend on the storage backend: per job the inputs, the output and the status (metadata holds timestamps)"""
+    if final["k"] != "val" or not isinstance(final["v"], dict) or "d" not in final["v"]:
+        return final
+    dig = {}
+    for pid, rec in final["v"]["d"]:
+        r = dict(rec["d"]) if isinstance(rec, dict) and "d" in rec else {}
+        md = r.get("metadata")
+        mkeys = sorted(k for k, _ in md["d"]) if isinstance(md, dict) and "d" in md else None
+        dig[pid] = {"in": cv(r.get("in")), "out": cv(r.get("out")), "status": r.get("status"), "metadata_keys": mkeys}
+    return dig
+
+
+def judge_ev_log(log):
+    sm = SimpleMap("evaluator")
+    for c, o in log:
+        judge_call(sm, c, o)
+    return sm.bad
+
+
+def ev_backends(scn):
+    return "+".join(sorted({e["method"] for e in scn["evaluators"]}))
+
+
+def ev_fails(scn, label, factory, clause, method):
+    if clause == "shared-equals-memory":
+        return run_ev_scenario(scn, "MemoryStorage", factory)[2] != run_ev_scenario(scn, "SharedMemoryStorage", factory)[2]
+    log, snap_bad, _, _ = run_ev_scenario(scn, label, factory)
+    if clause == "snapshot":
+        return snap_bad is not None
+    return any(b[0] == clause and b[1] == method for b in judge_ev_log(log))
+
+
+def shrink_ev(scn, label, factory, clause, method):
+    """drop steps, configurations, evaluators and configuration entries while the same clause fails on the same method"""
+    best = copy.deepcopy(scn)
+    tries = 0
+
+    def attempt(cand):
+        nonlocal best, tries
+        tries += 1
+        try:
+            if ev_fails(cand, label, factory, clause, method):
+                best = cand
+                return True
+        except Exception:
+            pass
+        return False
+
+    i = len(best["steps"]) - 1
+    while i >= 0 and tries < 120:
+        cand = copy.deepcopy(best)
+        del cand["steps"][i]
+        if cand["steps"]:
+            attempt(cand)
+        i = min(i, len(best["steps"])) - 1
+    if len(best["evaluators"]) > 1 and tries < 150:
+        cand = copy.deepcopy(best)
+        cand["evaluators"] = cand["evaluators"][:1]
+        attempt(cand)
+    for si, st in enumerate(list(best["steps"])):
+        if st[0] != "submit":
+            continue
+        k = len(st[2]) - 1
+        while k >= 0 and len(best["steps"][si][2]) > 1 and tries < 200:
+            cand = copy.deepcopy(best)
+            del cand["steps"][si][2][k]
+            attempt(cand)
+            k -= 1
+        for ci in range(len(best["steps"][si][2])):
+            for key in ("layers", "opt", "f", "out"):
+                cand = copy.deepcopy(best)
+                cfg = cand["steps"][si][2][ci]["d"]
+                if any(p[0] == key for p in cfg) and tries < 260:
+                    cand["steps"][si][2][ci]["d"] = [p for p in cfg if p[0] != key]
+                    attempt(cand)
+            # does it take a run-function that edits its parameters?
+            cand = copy.deepcopy(best)
+            cfg = cand["steps"][si][2][ci]["d"]
+            if any(p[0] == "mode" and p[1] != {"s": "none"} for p in cfg) and tries < 300:
+                cand["steps"][si][2][ci]["d"] = [(["mode", {"s": "none"}] if p[0] == "mode" else p) for p in cfg]
+                attempt(cand)
+    # the plainest client that still shows it: serial backend, one worker
+    for ei in range(len(best["evaluators"])):
+        for k, v in (("method", "serial"), ("workers", 1)):
+            if best["evaluators"][ei].get(k) != v and tries < 320:
+                cand = copy.deepcopy(best)
+                cand["evaluators"][ei][k] = v
+                attempt(cand)
+    return best
+
+
+def ev_modes_of(scn):
+    ms = {dict(c["d"]).get("mode", {}).get("s", "?") for st in scn["steps"] if st[0] == "submit" for c in st[2]} - {"none"}
+    return "edits-its-parameters" if ms else "read-only"
+
+
+def judge_ev(sink, scn, label, log, snap_bad, factory, shrink=True):
+    bad = judge_ev_log(log)
+    seen = set()
+    for clause, method, detail in bad[:3]:
+        if (clause, method) in seen:
+            continue
+        seen.add((clause, method))
+        if shrink:
+            # the fingerprint is computed from the shrunk scenario; the same complaint is shrunk (and reported) three times at most
+            k = f"evaluator-violations:{label}:{clause}:{method}"
+            sink.count(k)
+            if sink.counts[k] > 3:
+                continue
+        small = shrink_ev(scn, label, factory, clause, method) if shrink else scn
+        fp = f"C13|{clause}|{method}|{label}/evaluator-{ev_backends(small)}/run-function:{ev_modes_of(small)}"
+        sink.fail(fp, f"{label} under a real evaluator: {clause} at {method}", dict(small, storage=label), detail)
+    if snap_bad is not None:
+        small = shrink_ev(scn, label, factory, "snapshot", None) if shrink else scn
+        sink.fail(f"C13|snapshot|{snap_bad['loaded_by'][0]}|{label}/evaluator-{ev_backends(small)}/run-function:{ev_modes_of(small)}",
+                  f"{label} under a real evaluator: a loaded object changed later", dict(small, storage=label), snap_bad)
+    return bad
+
+
+def ev_requests(log):
+    """the recorded log for the model (`hist`) and for the verified checker (`check`)"""
+    calls = [c for c, _ in log]
+    outs = [o for _, o in log]
+    return {"op": "hist", "s": 50_000, "calls": [model_call(c) for c in calls]}, check_request(calls, outs), calls, outs
+
+
+def ev_systematic():
+    """every way the run-function edits its parameters x both backends x both job formats: submit three configurations (one of
+    them read-only), load, gather, load; and the same with two evaluators on the search"""
+    nested = [["layers", {"l": [{"i": 1}, {"i": 2}]}], ["opt", {"d": [["name", {"s": "sgd"}], ["steps", {"l": [{"i": 1}]}]]}]]
+    for mode in EV_MODES[1:]:
+        for method in ("serial", "thread"):
+            for hpo in (True, False):
+                cfgs = [{"d": [["x", {"i": 1}], ["mode", {"s": "none"}], ["out", {"s": "dict"}]] + nested},
+                        {"d": [["x", {"i": 2}], ["mode", {"s": mode}], ["out", {"s": "scalar"}]] + nested},
+                        {"d": [["mode", {"s": mode}], ["x", {"i": 3}], ["out", {"s": "tuple"}]]}]
+                evs = [{"method": method, "hpo": hpo, "workers": 2}]
+                steps = [["submit", 0, cfgs], ["call", ["load_job", "0.1"]], ["call", ["load_search", "0"]], ["gather", 0, "ALL"], ["call", ["load_job", "0.1"]],
+                         ["reuse", 1, 2], ["kept_job_status", 0, 1], ["call", ["job_status_set", "0.1", {"i": 0}, "A"]], ["kept_job_status", 0, 1],
+                         ["call", ["running_job_status", "0.1", "R"]]]
+                yield {"kind": "evaluator", "evaluators": evs, "steps": steps}
+        other = {"method": "serial", "hpo": True, "workers": 1}
+        yield {"kind": "evaluator", "evaluators": [{"method": "thread", "hpo": True, "workers": 2}, other],
+               "steps": [["submit", 0, cfgs[:2]], ["submit", 1, cfgs[2:]], ["gather", 0, "ALL"], ["call", ["load_jobs", ["0.0", "0.1", "0.2"]]], ["gather", 1, "ALL"],
+                         ["kept_job_status", 1, 0], ["call", ["store_job_status", "0.2", {"i": 1}]], ["kept_job_status", 1, 0], ["kept_job_status", 0, 2]]}
+
+
+def ev_worker(item):
+    seed, ngen, shared_mod = item
+    import random
+
+    common.use_repo_sources()
+    rng = random.Random(seed)
+    sink = Sink()
+    factory = SharedFactory()
+    reqs, metas, checks = [], [], []
+    try:
+        scns = [("systematic", s) for s in ev_systematic()]
+        for _ in range(ngen):
+            scns.append(("generated", gen_ev_scenario(rng, rng.choice([4, 6, 10, 16]))))
+        for t, (how, scn) in enumerate(scns):
+            sink.case(scn, nontrivial=True)
+            sink.count("schedule:evaluator-driven/" + how)
+            for e in scn["evaluators"]:
+                sink.count(f"evaluator:{e['method']}:{'HPOJob' if e['hpo'] else 'Job'}")
+            for st in scn["steps"]:
+                sink.count("evaluator-step:" + st[0])
+                if st[0] == "submit":
+                    for c in st[2]:
+                        sink.count("run-function-edits-parameters:" + dict(c["d"]).get("mode", {}).get("s", "?"))
+            log, snap_bad, dig, raised = run_ev_scenario(scn, "MemoryStorage", factory)
+            for c, o in log:
+                sink.count("evaluator-op:" + c[0])
+            for r in raised[:1]:
+                sink.mismatch(dict(scn, storage="MemoryStorage"), {"what": "a step of the scenario raised under a real evaluator (it never does on a storage that behaves like the model)", **r})
+            bad = judge_ev(sink, scn, "MemoryStorage", log, snap_bad, factory)
+            rq, cq, calls, outs = ev_requests(log)
+            reqs.append(rq)
+            metas.append((scn, calls, outs))
+            if cq is not None:
+                checks.append((cq, dict(scn, storage="MemoryStorage"), "MemoryStorage", calls, bad))
+            if how == "systematic" or t % shared_mod == 0:
+                slog, ssnap, sdig, sraised = run_ev_scenario(scn, "SharedMemoryStorage", factory)
+                for r in sraised[:1]:
+                    sink.mismatch(dict(scn, storage="SharedMemoryStorage"), {"what": "a step of the scenario raised under a real evaluator on the shared storage", **r})
+                sink.count("shared-histories")
+                sbad = judge_ev(sink, scn, "SharedMemoryStorage", slog, ssnap, factory)
+                _, cq, scalls, _ = ev_requests(slog)
+                if cq is not None:
+                    checks.append((cq, dict(scn, storage="SharedMemoryStorage"), "SharedMemoryStorage", scalls, sbad))
+                if dig != sdig:
+                    sink.count("evaluator-violations:shared-equals-memory")
+                if dig != sdig and sink.counts["evaluator-violations:shared-equals-memory"] <= 3:
+                    scn = shrink_ev(scn, "both", factory, "shared-equals-memory", None)
+                    dig, sdig = run_ev_scenario(scn, "MemoryStorage", factory)[2], run_ev_scenario(scn, "SharedMemoryStorage", factory)[2]
+                    diff = next((j for j in sorted(set(dig) | set(sdig)) if dig.get(j) != sdig.get(j)), None) if isinstance(dig, dict) and isinstance(sdig, dict) else None
+                    sink.fail(f"C13|shared-equals-memory|load_search|SharedMemoryStorage/evaluator-{ev_backends(scn)}/run-function:{ev_modes_of(scn)}",
+                              "the same scenario under real evaluators leaves different inputs / outputs / statuses on SharedMemoryStorage and on MemoryStorage",
+                              dict(scn, storage="both"), {"job": diff, "memory": dig.get(diff) if diff else dig, "shared": sdig.get(diff) if diff else sdig})
+        with common.LeanDriver("C13") as drv:
+            reps = drv.ask_all(reqs)
+            creps = drv.ask_all([c[0] for c in checks])
+        for (_, case, label, calls, bad), rep in zip(checks, creps):
+            cross_check(sink, case, label, calls, bad, rep)
+        for (scn, calls, outs), rep in zip(metas, reps):
+            for i, (x, y) in enumerate(zip(outs, rep["outs"])):
+                if y["k"] == "oom":
+                    break
+                if cout(x) != cout(y):
+                    sink.mismatch(dict(scn, storage="MemoryStorage"), {"what": "a storage call made under a real evaluator is answered differently by the model run on the recorded calls",
+                                                                       "call": i, "c": calls[i], "impl": cout(x), "model": cout(y)})
+                    break
+    finally:
+        factory.close()
+    return sink
+
+
 # --------------------------------------------------------------------------- the check
 
 
@@ -2328,11 +3270,21 @@ def run(ck):
                "the loads returned (every load kind x every way of editing x {once, twice, a store in between}) or hands a part of a loaded job / search back to the storage "
                "(every part x every store method x {same job, other job, job of another search}, then store_job_metadata on the receiver), enumerated, plus generated ones; "
                "(e) scripts of creates / stores of new and of loaded objects / load_job / load_search / load_jobs / in-place edits whose answers are compared object by object "
-               "(same object or new object) with the model of object identities; distinct by canonical call list; "
+               "(same object or new object) with the model of object identities, incl. configurations submitted and run through a real evaluator (the parameters object of the running job); "
+               "(f) keys of every hashable type next to the strings they print as (20 look-alike pairs x both orders x every keyed store method and as keys of one stored dict; identifiers that "
+               "are not str; values of different types that are equal for Python stored one over the other), enumerated + generated; several client handles per job (two Job objects, a "
+               "RunningJob, objects made per access, the storage methods: every pair of writers x every pair of statuses, all readers after each write; quick: a third of them); "
+               "(g) scenarios under real evaluators (serial / thread, Job / HPOJob, one or two per search) whose run-function edits its parameters in 7 ways, the caller reusing the dicts it "
+               "submitted, statuses stored / read through the storage, new handles and the Job objects the evaluators keep: the recorded storage calls are the history; "
+               "distinct by canonical call list; "
                "non-trivial = the history creates at least one job")
     ck.assumptions = [
         "the manager server executes each method call atomically (CPython GIL: no eval-breaker check between reading and writing an id counter; checked by disassembly on every run, not proved)",
-        "keys and identifiers are strings; values are JSON-like trees (None/bool/int/finite float/str/list/tuple/dict)",
+        "keys and identifiers are str, None, bool, int, finite float or flat tuples of these (a key is taken up to the equality a dict uses: 1 == 1.0 == True); values are JSON-like trees "
+        "(None/bool/int/finite float/str/list/tuple/dict)",
+        "typed keys are kept out of the malformed stream: a `metadata` entry replaced by a list accepts int-like keys as indices (not modelled)",
+        "under real evaluators the user edits only what is his: the parameters the run-function was given and the dicts passed to submit; objects the run-function returned and the Job objects "
+        "gather returns are not edited (stored by reference by `_on_done`: observed and counted, not judged); thread backend with gather('ALL') only, so that the end state does not depend on timing",
         "store_search_value with the keys 'job_id_counter' / 'data' overwrites the storage's own bookkeeping entries: excluded from model, theorems and oracle",
         "store_job with the key 'metadata' and a non-dict value makes later metadata calls raise: modelled (TypeError/AttributeError), not judged by the oracle",
         "exhaustive = over sequences of method kinds with rotated arguments, not over all argument tuples (17^L kinds sequences, L<=5); length 6..7 and beyond are sampled",
@@ -2342,6 +3294,8 @@ def run(ck):
         "Model/StorageAlias.lean speaks about acyclic values and job tables in which no object occurs twice (deepcopy's memo is not modelled); searches, counters and free search values are not part of it",
     ]
     ck.trusted_extra = ["the dict-of-dicts 'simple map' reference and the linearization builder in harness/c13.py",
+                        "the rendering of the keys of the real answers (`kenc`, compared with the model's `Key.render` on every typed history) and the parse of wire keys in the driver",
+                        "the recording storage client (`Recorder`: passes every call on unchanged) and the scenario runner for real evaluators",
                         "multiprocessing.managers (proxy, pickling, one server thread per client)"]
     rng = ck.rng
     win = atomicity_window()
@@ -2392,13 +3346,24 @@ def run(ck):
     # (d) what the caller does with loaded data (edits it / hands it back to the storage) must not matter
     nparts = ck.pick(3, 6)
     alias_items = [(rng.randrange(1 << 30), k, nparts, ck.pick(50, 400)) for k in range(nparts)]
+    # (f) keys of every hashable type next to the strings they print as; several client handles (Job / RunningJob objects) per job
+    #     (quick: one third of the 625 status histories, chosen by the seed; thorough: all of them, and everything on the shared storage too)
+    bparts = ck.pick(1, 4)
+    batch_items = [(rng.randrange(1 << 30), "typed-keys", k, bparts, ck.pick(60, 500), ck.pick(3, 1)) for k in range(bparts)]
+    if ck.thorough:
+        batch_items += [(rng.randrange(1 << 30), "status-handles", k, bparts, 0, 1) for k in range(bparts)]
+    else:
+        batch_items.append((rng.randrange(1 << 30), "status-handles", rng.randrange(3), 3, 0, 3))
+    # (g) jobs created and run through real evaluators whose run-function edits its parameters; the recorded storage calls are the history
+    ev_items = [(rng.randrange(1 << 30), ck.pick(80, 600), ck.pick(4, 2)) for _ in range(ck.pick(1, 4))]
     # a sample of the generated histories in this process too (the line-coverage probe only sees this process)
     long_worker((rng.randrange(1 << 30), ck.pick(15, 40), 200, False)).fold(ck)
     storage_factory(ck)
     store_side_observation(ck)
-    nworkers = min(ck.pick(6, 14), os.cpu_count() or 2)
+    nworkers = min(ck.pick(8, 14), os.cpu_count() or 2)
     with ProcessPoolExecutor(max_workers=nworkers, mp_context=mp.get_context("fork")) as pool:
-        f0 = [pool.submit(alias_worker, it) for it in alias_items]
+        f0 = ([pool.submit(alias_worker, it) for it in alias_items] + [pool.submit(batch_worker, it) for it in batch_items]
+              + [pool.submit(ev_worker, it) for it in ev_items])
         f1 = [pool.submit(fan_worker, it) for it in items]
         f2 = [pool.submit(long_worker, it) for it in long_items]
         for f in f0 + f1 + f2:
@@ -2452,14 +3417,62 @@ def replay(ck, case, drv=None, quiet=False):
                                   "SharedMemoryStorage answers differently", case, d)
                 outs, eff = next(iter(res.values()))
                 ecalls, eouts, ks = storage_level(calls, outs, eff)
-                rep = drv.ask({"op": "hist", "s": 999_999, "calls": [to_storage_call(c) for c in tok(ecalls)]})
+                rep = drv.ask({"op": "hist", "s": 999_999, "calls": [model_call(c) for c in tok(ecalls)]})
                 for i, (x, y) in enumerate(zip(eouts, rep["outs"])):
                     if y["k"] == "oom":
                         break
-                    y = expected_view_out(ecalls[i], y)
                     if cout(x) != cout(y):
                         sink.mismatch(case, {"call": ks[i], "impl": cout(x), "model": cout(y)})
                         break
+                sink.case(case)
+            finally:
+                factory.close()
+            sink.fold(ck)
+        elif kind == "evaluator":
+            sink = Sink()
+            factory = SharedFactory()
+            try:
+                scn = {k: v for k, v in case.items() if k != "storage"}
+                labels = ["MemoryStorage", "SharedMemoryStorage"] if case.get("storage") in (None, "both") else [case["storage"]]
+                digs = {}
+                for label in labels:
+                    log, snap_bad, digs[label], raised = run_ev_scenario(scn, label, factory)
+                    for r in raised:
+                        if not quiet:
+                            print("  a step RAISED:", json.dumps(r))
+                        sink.mismatch(case, {"what": "a step of the scenario raised under a real evaluator", **r})
+                    bad = judge_ev(sink, scn, label, log, snap_bad, factory, shrink=True)   # the fingerprint comes from the shrunk scenario
+                    rq, cq, calls, outs = ev_requests(log)
+                    if not quiet:
+                        print(f"replay on {label} under real evaluators {[(e['method'], 'HPOJob' if e.get('hpo') else 'Job') for e in scn['evaluators']]}; steps:")
+                        for st in scn["steps"]:
+                            print("    ", json.dumps(st)[:300])
+                        print("  storage calls recorded (value of every argument at the time of the call) and their answers:")
+                        for c, o in log:
+                            print("   ", json.dumps(c)[:260], "->", json.dumps(cout(o))[:400])
+                        for b in bad:
+                            print("  ORACLE FAILS:", b[0], b[1], json.dumps(b[2])[:700])
+                        if snap_bad:
+                            print("  ORACLE FAILS: snapshot", json.dumps(snap_bad)[:600])
+                    if cq is not None:
+                        crep = drv.ask(cq)
+                        if not quiet:
+                            print(f"  verified checker on the recorded answers of {label}: spec={crep['spec']} first bad answer={crep.get('bad')}")
+                        cross_check(sink, case, label, calls, bad, crep)
+                    rep = drv.ask(rq)
+                    for i, (x, y) in enumerate(zip(outs, rep["outs"])):
+                        if y["k"] == "oom":
+                            break
+                        if cout(x) != cout(y):
+                            sink.mismatch(case, {"call": i, "c": calls[i], "impl": cout(x), "model": cout(y)})
+                            break
+                if len(digs) == 2 and digs["MemoryStorage"] != digs["SharedMemoryStorage"]:
+                    a, b = digs["MemoryStorage"], digs["SharedMemoryStorage"]
+                    diff = next((j for j in sorted(set(a) | set(b)) if a.get(j) != b.get(j)), None) if isinstance(a, dict) and isinstance(b, dict) else None
+                    if not quiet:
+                        print("  ORACLE FAILS: shared-equals-memory", json.dumps({"job": diff, "memory": a.get(diff) if diff else a, "shared": b.get(diff) if diff else b})[:900])
+                    sink.fail(f"C13|shared-equals-memory|load_search|SharedMemoryStorage/evaluator-{ev_backends(scn)}/run-function:{ev_modes_of(scn)}",
+                              "SharedMemoryStorage and MemoryStorage end differently", case, {"job": diff})
                 sink.case(case)
             finally:
                 factory.close()
